@@ -157,6 +157,25 @@ Theorem proof_no_floor :
     /\ (forall c, cut = Some c -> ex <= c).
 Proof. exact proof_expiry_no_floor. Qed.
 
+(* The proof-expiry model IS the source (wave 9): cache.denialProofExpiry, translated from the Go
+   AST (its local closure `bound` inlined, dns.RR as a sum type), equals proof_expiry on the view
+   prr_of_irr of the record list, for every clock reading, ceiling, lease (the zero time.Time =
+   none) and every record list without a nil interface value (with one the code records nothing:
+   gen_denialProofExpiry_nil); hence proof_no_floor speaks about the translated code. *)
+Theorem denial_proof_expiry_is_source :
+  forall now mx cut records,
+    existsb is_nil_rr records = false ->
+    go_denialProofExpiry now mx cut records
+    = match proof_expiry mx (oz_go cut) (map prr_of_irr records) now now with
+      | Some e => (e, true)
+      | None => (0, false)
+      end
+    /\ (forall ex, go_denialProofExpiry now mx cut records = (ex, true) ->
+          now < ex /\ ex - now <= max_denial_proof_ttl /\ (0 < mx -> ex - now <= mx)
+          /\ (cut <> 0 -> ex <= cut)
+          /\ (forall x c, In x records -> In c (prr_cands now (prr_of_irr x)) -> ex - now <= c)).
+Proof. exact denial_proof_expiry_is_source_l. Qed.
+
 (* DNS64 above the cache (middleware/dns64 synthesise, as repaired by af44539):
    a synthesised AAAA is composed from the AAAA answer, the alias pieces of the
    A chase and the address answer, each a cache hit or fresh from downstream.
@@ -301,3 +320,4 @@ Print Assumptions dns64_basis_inherits_min.
 Print Assumptions cut_rerecorded_inherits.
 Print Assumptions cut_rerecord_between.
 Print Assumptions calculate_cache_ttl_is_source.
+Print Assumptions denial_proof_expiry_is_source.
